@@ -189,8 +189,10 @@ pub fn lex(text: &str) -> Result<Lexed, String> {
                 i += 1;
             }
             let text = String::from_utf8_lossy(&b[s..i]).into_owned();
-            // digits followed by identifier characters that do not form a number: identifier
-            let kind = if looks_like_number(&text) { Kind::Num } else { Kind::Ident };
+            // a token made only of number characters is a number token (possibly malformed);
+            // digits followed by other identifier characters: an (invalid) identifier
+            let numchars = text.bytes().all(|c| c.is_ascii_hexdigit() || b"xX.+-".contains(&c));
+            let kind = if numchars { Kind::Num } else { Kind::Ident };
             out.tokens.push(Tok { kind, text, line, end_line: line });
         } else {
             return Err(format!("invalid character {c:#x} on line {line}"));
